@@ -492,6 +492,20 @@ def listSet (xs : List Val) (i : Val) (v : Val) : Res Val :=
     else if k.toNat < xs.length then .ok (.list (xs.set k.toNat v)) else .raise "IndexError"
   | _ => .stuck
 
+/-- entering a call: the callee's parameters are bound in a FRESH environment, its trace starts empty -/
+def enterCall (ps : List String) (vs : List Val) (run : St → Flow) : Flow :=
+  match initEnv ps vs with
+  | some env => run ⟨env, []⟩
+  | Option.none => .stuck
+
+/-- leaving a call `x = f(…)`: the returned value (`None` when the callee fell off its end) is bound to `x` in the
+    CALLER's state `st`, the callee's trace is appended to the caller's; exceptions / stuck propagate -/
+def callRet (x : String) (st : St) : Flow → Flow
+  | .next st' => .next ⟨(x, Val.none) :: st.env, st.out ++ st'.out⟩
+  | .ret v st' => .next ⟨(x, v) :: st.env, st.out ++ st'.out⟩
+  | .raise exc => .raise exc
+  | .stuck => .stuck
+
 mutual
 def exec (X : Ext) : Stmt → St → Flow
   | .assign x e, st => withVal (eval X e st.env) fun v => .next (st.set x v)
@@ -532,15 +546,7 @@ def exec (X : Ext) : Stmt → St → Flow
     | r => r
   | .callFn x ps body args, st =>
     match evalList X args st.env with
-    | .ok vs =>
-      match initEnv ps vs with
-      | some env =>
-        match execBlock X body ⟨env, []⟩ with
-        | .next st' => .next ⟨(x, Val.none) :: st.env, st.out ++ st'.out⟩
-        | .ret v st' => .next ⟨(x, v) :: st.env, st.out ++ st'.out⟩
-        | .raise exc => .raise exc
-        | .stuck => .stuck
-      | Option.none => .stuck
+    | .ok vs => callRet x st (enterCall ps vs (execBlock X body))
     | .raise exc => .raise exc
     | .stuck => .stuck
 def execBlock (X : Ext) : List Stmt → St → Flow
